@@ -11,6 +11,13 @@ INTEGER_MIN_VALUE = -(2**31)
 INTEGER_MAX_VALUE = 2**31 - 1
 
 
+def _is_int_in_range(value: Any, minimum: int, maximum: int) -> bool:
+    if not isinstance(value, int):
+        return False
+    # The number itself: an int subclass may define comparisons of its own.
+    return minimum <= int.__index__(value) <= maximum
+
+
 def _describe(value: Any) -> str:
     """Text of a rejected value for the error message (the value can be anything,
     e.g. an int too long to print or an object that cannot be formatted)."""
@@ -26,9 +33,7 @@ def integer_validator(
     value: Any,
 ) -> bool:
     """Validates that integer value belongs in the range expected by LSP."""
-    if not isinstance(value, int) or not (
-        INTEGER_MIN_VALUE <= value <= INTEGER_MAX_VALUE
-    ):
+    if not _is_int_in_range(value, INTEGER_MIN_VALUE, INTEGER_MAX_VALUE):
         name = attribute.name if hasattr(attribute, "name") else str(attribute)
         raise ValueError(
             f"{instance.__class__.__qualname__}.{name} should be in range [{INTEGER_MIN_VALUE}:{INTEGER_MAX_VALUE}], but was {_describe(value)}."
@@ -46,9 +51,7 @@ def uinteger_validator(
     value: Any,
 ) -> bool:
     """Validates that unsigned integer value belongs in the range expected by LSP."""
-    if not isinstance(value, int) or not (
-        UINTEGER_MIN_VALUE <= value <= UINTEGER_MAX_VALUE
-    ):
+    if not _is_int_in_range(value, UINTEGER_MIN_VALUE, UINTEGER_MAX_VALUE):
         name = attribute.name if hasattr(attribute, "name") else str(attribute)
         raise ValueError(
             f"{instance.__class__.__qualname__}.{name} should be in range [{UINTEGER_MIN_VALUE}:{UINTEGER_MAX_VALUE}], but was {_describe(value)}."
